@@ -67,10 +67,14 @@ REQUIRED = {'CODE': ['ConceptCodeSequence'], 'COMPOSITE': ['ReferencedSOPSequenc
 LAYOUTS = ['C', 'C', 'F', 'transposed-view', 'strided-rows', 'strided-columns', 'reversed-view', 'read-only', 'float32', 'int']
 
 
-def _array(pts, dim, layout):
+def _array(pts, dim, layout, ndim=2):
     """The logical (n x dim) array in the requested memory layout (same values, same shape)."""
     n = len(pts)
     base = np.array(pts, dtype=float).reshape(n, dim)
+    if ndim == 1:
+        return base.reshape(-1)
+    if ndim == 3:
+        return np.stack([base, base + 1.0], axis=2)          # shape (n, dim, 2): rows and width look right
     if layout == 'F':
         arr = np.asfortranarray(base)
     elif layout == 'transposed-view':
@@ -94,7 +98,8 @@ def _array(pts, dim, layout):
         arr = base.astype(np.int64)
     else:
         arr = base
-    assert arr.shape == (n, dim) and np.array_equal(np.asarray(arr, dtype=float), base)
+    assert arr.shape == (n, dim) and np.array_equal(np.asarray(arr, dtype=float),
+                                                    base.astype(np.float32).astype(float) if layout == 'float32' else base)
     return arr
 
 
@@ -273,8 +278,14 @@ def gen_item(r, depth=0, vt=None, bad=None, need_rel=False):
             else:
                 a['origin'] = r.choice(['volume', 'SLIDE'])
             d['bad'] = 'enum'
-        a['pts'] = [[_dyadic(r) for _ in range(a['dim'])] for _ in range(n)]
+        if r.random() < 0.3:      # coordinates that are NOT 32-bit floats (0.1, 1/3, ...): stored rounded to float32
+            a['pts'] = [[r.choice([0.1, 1 / 3, 2.7, r.uniform(-1000, 1000), r.uniform(-1, 1)]) for _ in range(a['dim'])] for _ in range(n)]
+        else:
+            a['pts'] = [[_dyadic(r) for _ in range(a['dim'])] for _ in range(n)]
         a['layout'] = r.choice(LAYOUTS)
+        if bad == 'ndim':
+            a['ndim'] = r.choice([1, 3])
+            d['bad'] = 'ndim'
     elif vt == 'SCOORD3D':
         gt = r.choice(list(GT3))
         if bad == 'open':
@@ -321,8 +332,13 @@ def gen_item(r, depth=0, vt=None, bad=None, need_rel=False):
             pts[-1][k] += r.choice([0.5, -1.0, 2.0])
         elif gt in ('POLYGON', 'ELLIPSE') or r.random() < 0.5:
             pts = _plane_points(r, n, closed, coplanar)
+        elif r.random() < 0.4:
+            pts = [[r.choice([0.1, 1 / 3, r.uniform(-500, 500)]) for _ in range(3)] for _ in range(n)]
         else:
             pts = [[_dyadic(r, 8, 256) for _ in range(3)] for _ in range(n)]
+        if bad == 'ndim':
+            a['ndim'] = r.choice([1, 3])
+            d['bad'] = 'ndim'
         if d['bad'] == 'dim':
             a['dim'] = r.choice([2, 4])
             pts = [(p + [1.0])[:a['dim']] for p in pts]
@@ -338,7 +354,8 @@ def gen_item(r, depth=0, vt=None, bad=None, need_rel=False):
         elif k == 'positions':
             a['positions'] = [r.randint(1, 10 ** 6) for _ in range(n)]
         elif k == 'offsets':
-            a['offsets'] = [_dyadic(r, 1024, 2 ** 10) if r.random() < 0.7 else float(r.randint(0, 9999)) for _ in range(n)]
+            a['offsets'] = [r.choice([_dyadic(r, 1024, 2 ** 10), float(r.randint(0, 9999)), 0.1 + 0.2, 1 / 3, r.uniform(0, 1e4),
+                                      r.uniform(0, 1e-3)]) for _ in range(n)]
         else:
             a['datetimes'] = [[r.randint(1990, 2030), r.randint(1, 12), r.randint(1, 28), r.randint(0, 23), r.randint(0, 59),
                                r.randint(0, 59), r.choice([0, 678, 999999]), None] for _ in range(n)]
@@ -358,7 +375,7 @@ def gen_item(r, depth=0, vt=None, bad=None, need_rel=False):
     return d
 
 
-BAD_FOR = {'SCOORD': ['count', 'dim', 'enum'], 'SCOORD3D': ['count', 'open', 'noncoplanar', 'enum', 'dim'],
+BAD_FOR = {'SCOORD': ['count', 'dim', 'enum', 'ndim'], 'SCOORD3D': ['count', 'open', 'noncoplanar', 'enum', 'dim', 'ndim'],
            'TCOORD': ['none', 'enum']}
 
 
@@ -366,8 +383,8 @@ def gen_case(ctx, idx):
     r = ctx.rng('item', idx)
     bad = None
     if r.random() < 0.3:
-        bad = r.choice(['count', 'count', 'dim', 'enum', 'open', 'noncoplanar', 'none', 'rel', 'child-norel'])
-        vt = {'count': r.choice(['SCOORD', 'SCOORD3D']), 'dim': r.choice(['SCOORD', 'SCOORD3D']),
+        bad = r.choice(['count', 'count', 'dim', 'ndim', 'enum', 'open', 'noncoplanar', 'none', 'rel', 'child-norel'])
+        vt = {'count': r.choice(['SCOORD', 'SCOORD3D']), 'dim': r.choice(['SCOORD', 'SCOORD3D']), 'ndim': r.choice(['SCOORD', 'SCOORD3D']),
               'enum': r.choice(['SCOORD', 'SCOORD3D', 'TCOORD']), 'open': 'SCOORD3D', 'noncoplanar': 'SCOORD3D',
               'none': 'TCOORD'}.get(bad) or r.choice(VTS)
     else:
@@ -430,11 +447,11 @@ def build(d):
                                  referenced_waveform_channels=None if a['channels'] is None else [tuple(c) for c in a['channels']],
                                  relationship_type=rel)
     elif vt == 'SCOORD':
-        arr = _array(a['pts'], a['dim'], a.get('layout', 'C'))
+        arr = _array(a['pts'], a['dim'], a.get('layout', 'C'), a.get('ndim', 2))
         it = sr.ScoordContentItem(nm, a['gt'], arr, pixel_origin_interpretation=a['origin'], fiducial_uid=a['fiducial'],
                                   relationship_type=rel)
     elif vt == 'SCOORD3D':
-        arr = _array(a['pts'], a['dim'], a.get('layout', 'C'))
+        arr = _array(a['pts'], a['dim'], a.get('layout', 'C'), a.get('ndim', 2))
         it = sr.Scoord3DContentItem(nm, a['gt'], arr, frame_of_reference_uid=a['frame_of_reference'],
                                     fiducial_uid=a['fiducial'], relationship_type=rel)
     elif vt == 'TCOORD':
@@ -537,16 +554,35 @@ def observe(it):
             elif 'ReferencedTimeOffsets' in it:
                 val = {'range': it.temporal_range_type.value, 'offsets': [_fr(x) for x in items]}
             else:
-                from pydicom.valuerep import DT
-                val = {'range': it.temporal_range_type.value, 'datetimes': [_dt_tuple(x if isinstance(x, datetime.datetime) else DT(x)) for x in items]}
+                if all(isinstance(x, datetime.datetime) for x in items):
+                    val = {'range': it.temporal_range_type.value, 'datetimes': [_dt_tuple(x) for x in items]}
+                else:      # no normalisation: a string is not the date time that was given
+                    val = {'range': it.temporal_range_type.value, 'not-datetimes': [type(x).__name__ for x in items]}
     rel = it.relationship_type
     kids = [observe(c) for c in it.ContentSequence] if 'ContentSequence' in it else []
     return {'class': type(it).__name__, 'name': _code_tuple(it.name), 'rel': None if rel is None else rel.value, 'value': val,
             'children': kids}
 
 
-def expected(d):
-    """What `observe` must return for an accepted specification: computed from the specification alone."""
+def _f32(x):
+    return float(np.float32(x))
+
+
+def _ds16(x):
+    """The value a decimal string of at most 16 characters keeps of x (DICOM DS): the most precise one that fits."""
+    if len(repr(float(x))) <= 16:
+        return float(repr(float(x)))
+    for p in range(17, 0, -1):
+        t = '%.*g' % (p, x)
+        if len(t) <= 16:
+            return float(t)
+    return float(x)
+
+
+def expected(d, through_file=False):
+    """What `observe` must return for an accepted specification: computed from the specification alone.
+    Coordinates are stored as 32-bit floats (FL); through a file, time offsets keep what a 16-character decimal
+    string (DS) holds."""
     a = d['args']
     vt = d['vt']
 
@@ -571,7 +607,7 @@ def expected(d):
     elif vt == 'WAVEFORM':
         val = {'ref': [a['cls'], a['inst']], 'channels': a['channels']}
     elif vt in ('SCOORD', 'SCOORD3D'):
-        val = {'gt': a['gt'], 'shape': [len(a['pts']), a['dim']], 'pts': [[_fr(x) for x in row] for row in a['pts']]}
+        val = {'gt': a['gt'], 'shape': [len(a['pts']), a['dim']], 'pts': [[_fr(_f32(x)) for x in row] for row in a['pts']]}
         if vt == 'SCOORD3D':
             val['frame_of_reference'] = a['frame_of_reference']
         else:
@@ -581,11 +617,11 @@ def expected(d):
         if a['positions'] is not None:
             val = {'range': a['range'], 'positions': list(a['positions'])}
         elif a['offsets'] is not None:
-            val = {'range': a['range'], 'offsets': [_fr(x) for x in a['offsets']]}
+            val = {'range': a['range'], 'offsets': [_fr(_ds16(x) if through_file else x) for x in a['offsets']]}
         else:
             val = {'range': a['range'], 'datetimes': [list(v) for v in a['datetimes']]}
     return {'class': CLASS[vt], 'name': code(d['name']), 'rel': d['rel'], 'value': val,
-            'children': [expected(c) for c in d['children']]}
+            'children': [expected(c, through_file) for c in d['children']]}
 
 
 def forbidden(d):
@@ -655,6 +691,11 @@ def _codej(c):
     return None if c is None else [c['v'], c['s'], c['m'], c['ver']]
 
 
+def _fl_table(pts):
+    """the float32 cast on the coordinates that are not float32 numbers: [[x, float32(x)], ...] for the model's `fl`"""
+    return [[_fr(x), _fr(_f32(x))] for x in sorted({x for row in pts for x in row}) if _f32(x) != x]
+
+
 def model_spec(d):
     """The specification in the driver's JSON form (dates / times as the DICOM strings DA / TM / DT define)."""
     a = d['args']
@@ -683,10 +724,11 @@ def model_spec(d):
         args = {'cls': a['cls'], 'inst': a['inst'], 'channels': a['channels']}
     elif vt == 'SCOORD':
         args = {'gt': a['gt'], 'dim': a['dim'], 'pts': [[_fr(x) for x in row] for row in a['pts']], 'origin': a['origin'],
-                'fiducial': a['fiducial']}
+                'fiducial': a['fiducial'], 'ndim': a.get('ndim', 2), 'fl': _fl_table(a['pts'])}
     elif vt == 'SCOORD3D':
         args = {'gt': a['gt'], 'dim': a['dim'], 'pts': [[_fr(x) for x in row] for row in a['pts']],
-                'frame_of_reference': a['frame_of_reference'], 'fiducial': a['fiducial']}
+                'frame_of_reference': a['frame_of_reference'], 'fiducial': a['fiducial'], 'ndim': a.get('ndim', 2),
+                'fl': _fl_table(a['pts'])}
     elif vt == 'TCOORD':
         if a['positions'] is not None:
             args = {'range': a['range'], 'kind': 'positions', 'values': list(a['positions'])}
@@ -853,7 +895,7 @@ def check_item(ctx, case, reqs=None, pend=None):
             try:
                 back = _parse(mk(), vt, d['rel'], how.split('/')[1])
                 got = observe(back)
-                x = _diff(got, want)
+                x = _diff(got, expected(d, True) if how.startswith('bytes') else want)
                 if x:
                     ctx.fail(where, {'what': f'parsed item ({how}) differs from the original', 'first difference': x},
                              site='parse/' + vt)
@@ -869,6 +911,15 @@ def check_item(ctx, case, reqs=None, pend=None):
             _parse_probe(reqs, pend, case, 'memory/class', plain_copy(it), 'class', CLASS[vt], False, sr_flag)
             _parse_probe(reqs, pend, case, 'bytes/sequence', through_bytes(it, r.random() < 0.5), 'sequence', CLASS[vt], False, sr_flag)
             _parse_probe(reqs, pend, case, 'memory/sequence-as-sr', plain_copy(it), 'sequence', CLASS[vt], False, True)
+            _parse_probe(reqs, pend, case, 'flags/sr-flipped', plain_copy(it), 'sequence', CLASS[vt], False, not sr_flag)
+            _parse_probe(reqs, pend, case, 'flags/root', plain_copy(it), 'sequence', CLASS[vt], True, True)
+            dsx = plain_copy(it)
+            dsx.RelationshipType = r.choice(['FOO', 'contains', 'CONTAIN'])
+            _parse_probe(reqs, pend, case, 'relationship-type-unknown/sequence', dsx, 'sequence', CLASS[vt], False, True)
+            if d['children']:
+                dsx = plain_copy(it)
+                dsx.ContentSequence[r.randrange(len(dsx.ContentSequence))].RelationshipType = 'FOO'
+                _parse_probe(reqs, pend, case, 'relationship-type-unknown/child', dsx, 'class', CLASS[vt], False, sr_flag)
             wrong = r.choice([v for v in VTS if v != vt])
             _parse_probe(reqs, pend, case, 'wrong-class/' + wrong, plain_copy(it), 'class', CLASS[wrong], False, True)
             for attr in REQUIRED[vt] + ['ValueType', 'ConceptNameCodeSequence']:
@@ -894,6 +945,26 @@ def check_item(ctx, case, reqs=None, pend=None):
                     ctx.fail(where, f'{vt} dataset without required attribute {attr} parsed ({how})', site='parse-missing/' + vt)
                 except Exception:  # noqa: BLE001
                     pass
+        # the flags of from_sequence must fit the item; a relationship type must be one of the enumeration
+        for label, root, is_sr, must_raise in (
+                ('relationship type in a non-SR sequence', False, False, d['rel'] is not None),
+                ('no relationship type in a non-root SR sequence', False, True, d['rel'] is None),
+                ('root', True, True, d['rel'] is not None or vt != 'CONTAINER')):
+            try:
+                sr.ContentSequence.from_sequence([plain_copy(it)], is_root=root, is_sr=is_sr)
+                if must_raise:
+                    ctx.fail(where, f'from_sequence accepted: {label}', site='parse-flags')
+            except Exception as e:  # noqa: BLE001
+                if not must_raise:
+                    ctx.fail(where, f'from_sequence(is_root={root}, is_sr={is_sr}) refused a fitting {vt} item: {type(e).__name__}',
+                             site='parse-flags')
+        ds = plain_copy(it)
+        ds.RelationshipType = 'FOO'
+        try:
+            sr.ContentSequence.from_sequence([ds], is_root=False, is_sr=True)
+            ctx.fail(where, 'a data set with RelationshipType FOO parsed', site='parse-relationship-unknown')
+        except Exception:  # noqa: BLE001
+            pass
         if vt in NAME_MANDATORY:
             for how in ('class', 'sequence'):
                 ds = plain_copy(it)
